@@ -36,7 +36,7 @@ ApplyPrefixes(store, opts, ifi, host, frac, t) ==
 
 \* one valid message (hop limit 255) from host (zone already removed) at time t
 Receive(store, ifi, frac, e) ==
-  LET host == e.src
+  LET host == IF e.src = "unspec" THEN "::" ELSE e.src      \* (events name the unspecified address "unspec"; its label is "::")
       s0 == Put(store, "corerad_monitor_messages_received_total", <<ifi, host, TypeName(e.kind)>>,
                 Get(store, "corerad_monitor_messages_received_total", <<ifi, host, TypeName(e.kind)>>, 0) + 1)
   IN IF e.kind # "ra" THEN s0
